@@ -84,6 +84,7 @@ int main(int argc, char** argv) {
     const bool T = true /* the wide lattices run in both tiers */; const bool D = R.thorough(); (void)D;
     std::vector<unsigned> ns = T ? std::vector<unsigned>{8, 12, 13, 16, 24} : std::vector<unsigned>{8, 9};
     std::vector<unsigned> nbs = T ? std::vector<unsigned>{2, 3, 4} : std::vector<unsigned>{2};
+    if (D) { ns.push_back(32); ns.push_back(33); nbs.push_back(5); nbs.push_back(6); }
     for (unsigned n : ns) for (unsigned nb : nbs) for (int kind = 0; kind < NKIND; kind++) for (unsigned it = 1; it <= 4; it++)
     for (int var = 0; var < 4; var++) for (int dv = 0; dv < 2; dv++) {
         // var 3: rows of one bunch displaced beyond the grid (y-kick fields); for the Fokker-Planck kinds var selects the variant {none, damping, diffusion, full}
